@@ -587,10 +587,17 @@ func (c *Ctx) poolProvenance(R string) {
 		c.bad(R, fn, "success return", f.Pos(), "no success return")
 		return
 	}
-	for i, v := range []ssa.Value{rootV, interV} {
-		name := []string{"root pool", "intermediate pool"}[i]
-		nilp, why := mayBeNil(f, v, retInstr, retInstr.Block(), 0)
-		c.check(!nilp, R, fn, name+" is never nil", instrPos(retInstr), "x509.NewCertPool() on every success path", "LoadLayoutCertificates can return "+why+" as "+name+": a nil root pool makes crypto/x509 fall back to the host's system roots")
+	// every success return yields two non-nil pools
+	for k, r := range c.nilErrReturns(f) {
+		for i, v := range []ssa.Value{r.Results[0], r.Results[1]} {
+			name := []string{"root pool", "intermediate pool"}[i]
+			what := name + " is never nil"
+			if k > 0 {
+				what = fmt.Sprintf("%s (success return #%d)", what, k+1)
+			}
+			nilp, why := mayBeNil(f, v, r, r.Block(), 0)
+			c.check(!nilp, R, fn, what, instrPos(r), "x509.NewCertPool() on every success path", "LoadLayoutCertificates can return "+why+" as "+name+": a nil root pool makes crypto/x509 fall back to the host's system roots")
+		}
 	}
 	// feeds
 	feedsOf := func(pool ssa.Value) []poolFeed {
